@@ -102,7 +102,7 @@ Proof.
       pose proof (deliver_cview s i rs j pid na d h) as Hd;
       destruct (deliver s i rs j pid na d h) as [[[rs' acked] apl] who]; cbn [fst] in Hd
     end;
-    (assert (H2 : wcfgs (mkWorld rs' (oracle w1) (air w1)) = wcfgs w)
+    (assert (H2 : wcfgs (mkWorld rs' (oracle w1) (air w1) (clock w1)) = wcfgs w)
       by (unfold wcfgs at 1; cbn [radios]; rewrite Hd; exact Hn));
     cbv zeta;
     (destruct (negb expects); [exact H2|]);
@@ -111,7 +111,7 @@ Proof.
     end;
     try (cbn [fst]; rewrite set_radio_same_cview; [exact H2|];
          destruct apl as [a|]; [|reflexivity]; destruct (rx_full _); reflexivity);
-    (specialize (IH (mkWorld rs' (oracle w1) (air w1)) si e noack expects (made + 1));
+    (specialize (IH (mkWorld rs' (oracle w1) (air w1) (clock w1)) si e noack expects (made + 1));
      destruct (attempt _ _ _ _ _ _ _) as [[[w3 ok] m] who']; cbn [fst] in IH;
      change (wcfgs w3 = wcfgs w); rewrite IH; exact H2).
 Qed.
@@ -164,7 +164,7 @@ Lemma w_spi_cview_me w i mosi : (i < length (radios w))%nat ->
   cview (get_radio (fst (w_spi w i mosi)) i) = cview (fst (spi (get_radio w i) mosi)).
 Proof.
   intros Hi. unfold w_spi. destruct (spi (get_radio w i) mosi) as [r' miso]. cbn [fst].
-  rewrite (get_radio_cview_eq _ (set_radio w i r') i) by apply settle_wcfgs.
+  rewrite (get_radio_cview_eq _ (set_radio w i r') i) by (exact (settle_wcfgs 8 _)).
   rewrite get_set_radio_same by exact Hi. reflexivity.
 Qed.
 
@@ -172,14 +172,14 @@ Lemma w_spi_cview_other w i j mosi : i <> j ->
   cview (get_radio (fst (w_spi w i mosi)) j) = cview (get_radio w j).
 Proof.
   intros Hij. unfold w_spi. destruct (spi (get_radio w i) mosi) as [r' miso]. cbn [fst].
-  rewrite (get_radio_cview_eq _ (set_radio w i r') j) by apply settle_wcfgs.
+  rewrite (get_radio_cview_eq _ (set_radio w i r') j) by (exact (settle_wcfgs 8 _)).
   rewrite get_set_radio_other by exact Hij. reflexivity.
 Qed.
 
 Lemma w_spi_length w i mosi : length (radios (fst (w_spi w i mosi))) = length (radios w).
 Proof.
   assert (H : length (wcfgs (fst (w_spi w i mosi))) = length (wcfgs (set_radio w i (fst (spi (get_radio w i) mosi))))).
-  { unfold w_spi. destruct (spi (get_radio w i) mosi) as [r' miso]. cbn [fst]. rewrite settle_wcfgs. reflexivity. }
+  { unfold w_spi. destruct (spi (get_radio w i) mosi) as [r' miso]. cbn [fst]. exact (f_equal (@length cfg) (settle_wcfgs 8 _)). }
   unfold wcfgs in H. rewrite !map_length in H. rewrite H. unfold set_radio. cbn [radios].
   apply set_nth_radio_length.
 Qed.
@@ -188,7 +188,7 @@ Lemma w_ce_cview_me w i v : (i < length (radios w))%nat ->
   cview (get_radio (w_ce w i v) i) = cview (with_ce (get_radio w i) v).
 Proof.
   intros Hi. unfold w_ce.
-  rewrite (get_radio_cview_eq _ (set_radio w i (with_ce (get_radio w i) v)) i) by apply settle_wcfgs.
+  rewrite (get_radio_cview_eq _ (set_radio w i (with_ce (get_radio w i) v)) i) by (exact (settle_wcfgs 8 _)).
   rewrite get_set_radio_same by exact Hi. reflexivity.
 Qed.
 
@@ -196,7 +196,7 @@ Lemma w_ce_cview_other w i j v : i <> j ->
   cview (get_radio (w_ce w i v) j) = cview (get_radio w j).
 Proof.
   intros Hij. unfold w_ce.
-  rewrite (get_radio_cview_eq _ (set_radio w i (with_ce (get_radio w i) v)) j) by apply settle_wcfgs.
+  rewrite (get_radio_cview_eq _ (set_radio w i (with_ce (get_radio w i) v)) j) by (exact (settle_wcfgs 8 _)).
   rewrite get_set_radio_other by exact Hij. reflexivity.
 Qed.
 
